@@ -29,7 +29,7 @@ func init() {
 		Rule: "one run = (value stream, reader script, terminal condition, target mode) drawn from the tape; non-trivial = the simulated reader split at least one value across two reads, or injected a zero-length read, data-with-error, or a terminal error/EOF before the end of the stream; distinct = distinct hash of (stream bytes, every (len(p), n, err) the reader returned, target mode)",
 		FaultKinds: []string{"split-inside-number", "split-inside-string", "split-inside-escape", "split-inside-rune", "split-inside-literal",
 			"split-in-whitespace", "split-at-structural", "zero-read", "data+eof", "data+err", "eof-inside-value", "eof-clean-early", "err-inside-value", "err-at-boundary",
-			"err-kind-unexpected-eof", "err-kind-custom", "err-kind-wrapped", "cut-right-after-number"},
+			"err-kind-unexpected-eof", "err-kind-custom", "err-kind-wrapped", "err-kind-wraps-eof", "long-run-of-zero-length-reads", "cut-right-after-number"},
 		ProbeNames: []string{"refills>1", "value-longer-than-first-read-batch", "whitespace-run>64KiB", "values-decoded", "stream>32KiB", "stream>64KiB", "number-ends-at-read-boundary", "batch-boundary-inside-number", "batch-boundary-inside-token", "batch-boundary-inside-whitespace", "terminal-rechecked", "buffered-after-terminal-checked", "parse-remainder-checked", "buffered-checked", "values-rechecked-after-buffer-refills"},
 		Real:       []string{"json.Decoder (readValue, Buffered, InputOffset), json.Parse, the whole json decode path, compiled from /repo's working tree"},
 		Model:      []string{"io.Reader (simio.Reader: scripted chunking, zero reads, data+err, terminal errors)", "reference: encoding/json.Decoder of the toolchain, fed the delivered bytes in a single read"},
@@ -341,6 +341,8 @@ func c11FinalErr(name string) error {
 		return simio.ErrInjected
 	case "ErrWrapped":
 		return simio.ErrWrapped
+	case "ErrWrapsEOF":
+		return simio.ErrWrapsEOF
 	}
 	return io.EOF
 }
@@ -356,7 +358,7 @@ func c11GenScenario(r *core.Run) *c11Scenario {
 	sc.Stream = c11GenStream(r, sc.Mode, maxLen)
 	sc.Cut = len(sc.Stream)
 	sc.Final = "EOF"
-	switch t.Pick(5, 3, 2, 2, 2) {
+	switch t.Pick(5, 3, 2, 2, 2, 1) {
 	case 0: // clean EOF at the very end
 	case 1: // stream torn: EOF at an earlier offset
 		sc.Cut = -1
@@ -366,6 +368,8 @@ func c11GenScenario(r *core.Run) *c11Scenario {
 		sc.Final, sc.Cut = "ErrInjected", -1
 	case 4:
 		sc.Final, sc.Cut = "ErrWrapped", -1
+	case 5:
+		sc.Final, sc.Cut = "ErrWrapsEOF", -1
 	}
 	if sc.Cut < 0 {
 		fullSpans, fullTerm := c11RefFrames(sc.Stream)
@@ -379,6 +383,7 @@ func c11GenScenario(r *core.Run) *c11Scenario {
 	rd := &simio.Reader{}
 	chunkMode := t.Pick(3, 2, 3, 3, 2, 2)
 	c11Script(r, rd, chunkMode, len(sc.Stream))
+	c11ZeroRun(r, rd)
 	for _, e := range rd.Script {
 		sc.Script = append(sc.Script, e.N)
 	}
@@ -634,6 +639,12 @@ func c11Exec(r *core.Run, sc *c11Scenario) {
 			r.Fail("terminal-error", "reader-error-replaced:"+finalName, "reader failed with %v at a clean boundary (offset %d, after %d complete values); Decode returned %v which is not the reader's error", final, cut, len(refVals), termErr)
 			return
 		}
+		// "a prefix of them followed by the reader's error": also when the reader
+		// fails inside a value its own error is what Decode reports
+		if inside && !errors.Is(termErr, final) {
+			r.Fail("terminal-error", "reader-error-replaced-inside-value:"+finalName, "reader failed with %v inside a value (offset %d, after %d complete values); Decode returned %v which is not the reader's error", final, cut, len(refVals), termErr)
+			return
+		}
 	}
 	// Buffered after the terminal condition: together with what the reader has
 	// not handed out it is still the unconsumed input (the unfinished value
@@ -741,6 +752,8 @@ func c11CountFaults(r *core.Run, rd *simio.Reader, spans []c11Span, stream []byt
 			r.Fault("err-kind-custom")
 		case "ErrWrapped":
 			r.Fault("err-kind-wrapped")
+		case "ErrWrapsEOF":
+			r.Fault("err-kind-wraps-eof")
 		}
 	}
 	if len(rd.Batches) > 0 {
@@ -881,6 +894,28 @@ func c11Script(r *core.Run, rd *simio.Reader, mode int, n int) {
 	}
 	if rd.Tail < 1 {
 		rd.Tail = 1
+	}
+}
+
+// c11ZeroRun inserts a long run of zero-length reads (legal for an io.Reader, if
+// discouraged) into the script: at the very start, right after a read that
+// fills the initial buffer completely, or somewhere in the script.  Only C11
+// uses it (its statement names zero-length reads).
+func c11ZeroRun(r *core.Run, rd *simio.Reader) {
+	t := r.T
+	if t.Chance(1, 12) {
+		k := []int{99, 100, 101, 150, 199, 200, 300}[t.Intn(7)]
+		zeros := make([]simio.Event, k)
+		switch t.Intn(3) {
+		case 0:
+			rd.Script = append(zeros, rd.Script...)
+		case 1:
+			rd.Script = append(append([]simio.Event{{N: 32768}}, zeros...), rd.Script...)
+		default:
+			at := t.Intn(len(rd.Script) + 1)
+			rd.Script = append(rd.Script[:at:at], append(zeros, rd.Script[at:]...)...)
+		}
+		r.Fault("long-run-of-zero-length-reads")
 	}
 }
 
